@@ -1,4 +1,5 @@
 open BinInt
+open BinNat
 open BinNums
 open Common
 open Datatypes
@@ -48,6 +49,14 @@ val sort_imports_first : decl list -> decl list
 val partition_point : (decl -> bool) -> decl list -> nat
 
 val poison_of : code -> decl -> decl
+
+val path_eqb : coq_N list -> coq_N list -> bool
+
+val position_of : coq_N list -> coq_N list list -> nat option
+
+val parent_of : coq_N list -> coq_N list option
+
+val get_key_offset : coq_N list -> coq_N list list -> coq_N list -> nat option
 
 val pair_eqb : (nat * nat) -> (nat * nat) -> bool
 
